@@ -48,6 +48,10 @@ def plan(tier, seed):
     for s in SMILES:
         tasks.append({'space': 'roundtrip', 'kind': 'roundtrip', 'source': ('smi', s)})
         tasks.append({'space': 'embed', 'kind': 'embed', 'source': ('smi', s), 'rdseed': 1, 'nperm': 8})
+    feats = sorted(M.FEATURE)
+    for nm in (feats[::4] if q else feats):
+        tasks.append({'space': 'feature-molecules', 'kind': 'roundtrip', 'source': ('molF', nm)})
+        tasks.append({'space': 'feature-molecules', 'kind': 'embed', 'source': ('molF', nm), 'rdseed': 1, 'nperm': 8})
     names = sorted(M.SLICE)
     nm = names[seed % len(names)]
     tasks.append({'space': 'seed-slice', 'kind': 'embed', 'source': ('mol', nm), 'rdseed': 7 + seed, 'nperm': 6})
@@ -64,6 +68,8 @@ def load(source):
         return MoleculeResolver.from_string(s).resolve_all()
     if kind == 'mol':
         return MoleculeResolver.from_string('{[#M]}.{#M=%s}' % M.uncut_smiles(M.SLICE[s])).resolve_all()
+    if kind == 'molF':
+        return MoleculeResolver.from_string('{[#M]}.{#M=%s}' % M.uncut_smiles(M.FEATURE[s])).resolve_all()
     return None, pysmiles.read_smiles(s, explicit_hydrogen=True)
 
 
